@@ -99,6 +99,15 @@ key(t)` are refuted.  Besides `v is None`, any other test of the filter value al
 free variable of the truth table: the decision must not depend on the kind of filter value (C18-r82: a list value turned the
 plain keyword into `not in`).
 
+Round 9: `search(t)` as a closure that iterates the enclosing (never reassigned) `**kwargs` itself; the suffix chain moved into a
+method / function (`if not self.__filter_holds(t, k, v): return False`): an if/return chain helper is folded into one
+expression (conditional expressions are decided path by path); template methods of the list classes (`self._assign_links(..)`
+= `self._owner.<prop> = links`, `self._current_links()`) are resolved in the concrete class for remove_each; nested defs of
+order_by that share a name (two `def sort_key`) are analysed through a stand-in; an early empty result decided from one filter
+(`if k.endswith('_in_') and len(v) == 0: return _ImmutableTaskList([])`) is sound only if every suffix taking that branch is
+`_in_` (C18-r91: `_not_in_` also ends with `_in_`); a remove_all without a `remove` call per match that assigns / deletes
+something is another design (UNDECIDED), not a missing removal.
+
 Shapes followed since round 3: the attribute resolver is today's `__get_task_attribute` or - when that anchor is gone - the
 one package function `search` calls as `<fn>(<task>, <name>)` (moved to module level, to another class, nested in `__call__`);
 a filter of the result comprehension / selection loop that calls a predicate nested in `__call__` (or a local bound to a
@@ -213,6 +222,12 @@ def _decide(test: ast.AST, origin: ast.AST) -> List[Tuple[list, bool]]:
         return [(a, bool(r)) for a, r in alts]
     if isinstance(test, ast.Constant):
         return [([], bool(test.value))]
+    if isinstance(test, ast.IfExp):
+        out = []
+        for a, r in _decide(test.test, origin):
+            for a2, r2 in _decide(test.body if r else test.orelse, origin):
+                out.append((a + a2, r2))
+        return out
     if isinstance(test, ast.Compare) and len(test.ops) == 1 and isinstance(test.ops[0], (ast.Eq, ast.NotEq)) \
             and isinstance(test.left, ast.Constant) and isinstance(test.comparators[0], ast.Constant):
         return [([], (test.left.value == test.comparators[0].value) == isinstance(test.ops[0], ast.Eq))]
@@ -1040,7 +1055,7 @@ def _inline_value_helpers(prog, f, stmts: List[ast.stmt], skip=()) -> List[ast.s
                 return node
             body = [st for st in g.node.body if not (isinstance(st, ast.Expr) and isinstance(st.value, ast.Constant))]
             a = g.node.args
-            if len(body) != 1 or not isinstance(body[0], ast.Return) or body[0].value is None or a.vararg or a.kwarg or a.kwonlyargs:
+            if not body or a.vararg or a.kwarg or a.kwonlyargs:
                 return node
             if any(isinstance(x, ast.Starred) for x in node.args) or any(k.arg is None for k in node.keywords):
                 return node
@@ -1048,9 +1063,26 @@ def _inline_value_helpers(prog, f, stmts: List[ast.stmt], skip=()) -> List[ast.s
             params = g.params[1:] if g.kind in ('method', 'classmethod') else g.params
             if len(bound) != len(params) or any(b is None for b in bound):
                 return node
-            if names_in(body[0].value) & {g.params[0]} and g.kind == 'method':
-                return node              # uses its own self: not a pure function of the arguments
-            e = subst(body[0].value, dict(zip(params, bound)))
+            bind = dict(zip(params, bound))
+            if g.kind == 'method':
+                # its own self is the receiver of the call (`self.__filter_holds(..)` from the nested search: the same object)
+                if not (isinstance(node.func, ast.Attribute) and isinstance(node.func.value, ast.Name) and node.func.value.id == f.self_name):
+                    return node
+                bind[g.params[0]] = node.func.value
+            if len(body) == 1 and isinstance(body[0], ast.Return) and body[0].value is not None:
+                e = subst(body[0].value, bind)
+            else:
+                # an if/return chain (`if k.endswith(..): ..; if <reject>: return False .. return True`) folded into one expression
+                if any(isinstance(n, (ast.For, ast.While, ast.Try, ast.With, ast.Raise, ast.FunctionDef, ast.Lambda, ast.Yield))
+                       for st in body for n in ast.walk(st)):
+                    return node
+                stored = {n.id for st in body for n in ast.walk(st) if isinstance(n, ast.Name) and isinstance(n.ctx, ast.Store)}
+                if (stored - set(g.params)) & set().union(*[names_in(b) for b in bound] or [set()]):
+                    return node          # a local of the helper would capture a name of an argument
+                try:
+                    e = _bool_simplify(_stmts_expr(body, bind))
+                except _Undecided:
+                    return node
             self.depth += 1
             try:
                 return ast.copy_location(self.visit(e), node)
@@ -1740,6 +1772,49 @@ def _call_returns(ctx):
                     outer += facts.split_conj(tx, pol)
             return ap.args[0], fo.target, ex.expand(fo.iter, cfg.node_of(fo), stop=accs), filters, outer
 
+        def empty_fast_path(r, comp) -> bool:
+            """`for k, v in kwargs.items(): if k.endswith('<S>') and <v is empty>: return _ImmutableTaskList([])` - an empty result
+            decided from one filter alone.  Sound only if, for EVERY suffix of the table whose keys take that branch, an empty filter
+            value means that no task can pass (only `_in_`).  True when a verdict was given."""
+            if not (isinstance(comp, (ast.List, ast.Tuple)) and not comp.elts):
+                return False
+            loop = None
+            for n in walk_no_nested(f.node):
+                if isinstance(n, ast.For) and any(x is r for st in n.body for x in ast.walk(st)) and \
+                        match(f"{KW}.items()", n.iter) and isinstance(n.target, ast.Tuple) and len(n.target.elts) == 2 and \
+                        all(isinstance(x, ast.Name) for x in n.target.elts):
+                    loop = n
+            if loop is None:
+                return False
+            kv, vv = loop.target.elts[0].id, loop.target.elts[1].id
+            ends, empty, other = [], False, []
+            in_loop = {id(x) for st in loop.body for x in ast.walk(st) if isinstance(x, (ast.expr, ast.stmt))}
+            for t, pol in facts.node_conditions(prog, f, r, ctx.typer, expand=False):
+                if not any(id(x) in in_loop for x in ast.walk(t) if isinstance(x, ast.expr)):
+                    continue             # established before the loop (argument checks)
+                m = match(f"{kv}.endswith($s)", t)
+                if m and isinstance(m['s'], ast.Constant) and isinstance(m['s'].value, str):
+                    ends.append((m['s'].value, pol))
+                elif (pol and (match(f"len({vv}) == 0", t) or match(f"not {vv}", t) or match(f"not len({vv})", t))) or \
+                        (not pol and (match(vv, t) or match(f"len({vv})", t) or match(f"len({vv}) > 0", t))):
+                    empty = True
+                elif names_in(t) - {vv, 'hasattr', 'isinstance', 'len', 'list', 'tuple', 'set', 'frozenset', 'type'}:
+                    other.append((t, pol))
+            if not ends or not empty or other:
+                return False
+            taken = [A for A in SPEC if A and all(A.endswith(sfx) == pol for sfx, pol in ends)]
+            wrong = [A for A in taken if SPEC[A] != ('member', 'in')]
+            if wrong:
+                o.refute(f, r, r, f"an empty result is returned as soon as a filter ending with `{ends[0][0]}` has an empty value, but keys "
+                                  f"ending with `{wrong[0]}` take this branch too: " +
+                         ("an empty exclusion list excludes nothing - every task matches, not none"
+                          if wrong[0] == '_not_in_' else f"for `{wrong[0]}` an empty value does not mean that no task matches"))
+            elif taken:
+                o.site(f, r, f"empty result for an empty `{taken[0]}` value")
+            else:
+                return False
+            return True
+
         def implies(conds, forms):
             for t, pol in conds:
                 for pat, want in forms:
@@ -1786,6 +1861,8 @@ def _call_returns(ctx):
                 # a copy of the whole list: same as a comprehension without filters
                 nm = ast.Name(id='_t', ctx=ast.Load())
                 parts = (nm, nm, m['c'], [])
+            if (not parts or not isinstance(parts[1], ast.Name)) and empty_fast_path(r, comp):
+                continue
             if not parts or not isinstance(parts[1], ast.Name):
                 o.undecided(f, r, r.value, "the result is not `_ImmutableTaskList(<single comprehension>)`")
                 continue
@@ -1993,12 +2070,32 @@ def _readonly(ctx):
                     seen.add(g.qual)
                     funcs.append(g)
                     todo.append(g)
+        # nested defs the index does not hold (two `def sort_key` in the branches of order_by share one qualified name): analysed
+        # through a stand-in - their own stores plus the writes of everything they call
+        from sa.model import Func
+        shadowed = {}
+        indexed = {id(g.node) for g in funcs}
+        for b in builders:
+            for n in ast.walk(b.node):
+                if isinstance(n, ast.FunctionDef) and n is not b.node and id(n) not in indexed and \
+                        (prog.func_of_node(n) is None or prog.funcs.get(prog.func_of_node(n).qual) is None or
+                         prog.funcs[prog.func_of_node(n).qual].node is not n):
+                    k = sum(1 for x in shadowed.values() if x.name == n.name) + 2
+                    g = Func(qual=f"{b.qual}.{n.name}#{k}", name=n.name, node=n, module=b.module, cls=b.cls, kind='nested', parent=b)
+                    shadowed[g.qual] = g
+                    funcs.append(g)
         funcs += [g for n, g in sorted(prog.cls('Task').getters.items()) if not n.startswith('_')]
         for fn in funcs:
             a = getattr(fn.node, 'args', None)
             own_kw = a.kwarg.arg if a is not None and a.kwarg is not None else None
             bad = []
-            for (fld, root) in sorted(eff.writes_star(fn)):
+            if fn.qual in shadowed:
+                ws = {w.key() for w in eff.direct_writes(fn)}
+                for ci in ctx.cg.calls_in(fn):
+                    ws |= eff.call_writes(fn, ci)
+            else:
+                ws = eff.writes_star(fn)
+            for (fld, root) in sorted(ws):
                 if root == 'fresh' or (own_kw and root == 'param:' + own_kw):
                     continue
                 bad.append((fld, root))
@@ -2379,7 +2476,12 @@ def _remove_all(ctx):
                 isinstance(n.func, ast.Name) and n.func.id in ('_ImmutableTaskList', 'len', 'bool', 'list', 'tuple', 'set', 'id', 'iter'))
                 and not (isinstance(n.func, ast.Attribute) and isinstance(n.func.value, ast.Name) and 'log' in n.func.value.id.lower())
                 and n is not recv]
-            if others:
+            writes = [st for st, _, _ in facts.attr_stores(f)] + [n for n in walk_no_nested(f.node) if isinstance(n, ast.Delete)]
+            if writes:
+                # another design (e.g. one `holder.children = [..]` assignment per parent): not a missing removal
+                o.undecided(f, writes[0], 'removal', f"no `remove` call per match in {f.qual}; the removal seems to be done by "
+                                                     f"`{src(writes[0])[:80]}`, a design this rule does not model")
+            elif others:
                 o.undecided(f, others[0], 'removal', f"no `remove` call per match in {f.qual}; the removal may be done by `{src(others[0])[:80]}`, "
                                                      f"which this rule does not follow")
             else:
@@ -3161,6 +3263,46 @@ def _remove_each(ctx):
                 elif isinstance(nm, str) and prog.find_setter('Task', nm) is not None:
                     tgt = ast.copy_location(ast.Attribute(value=n.args[0], attr=nm, ctx=ast.Store()), n)
                     stores.append((cfg.node_containing(n).ast, tgt, n.args[2]))
+        # template methods: `self._assign_links(<new list>)` implemented per concrete class as `self._owner.<prop> = links`, and
+        # `self._current_links()` as `return [v for v in self._owner.<prop>]` - resolved in the CONCRETE class ci
+        def hook(name):
+            g = prog.find_method(ci.name, unmangle(name))
+            if g is None or g.kind != 'method' or not isinstance(g.node, ast.FunctionDef):
+                return None, None
+            return g, [st for st in g.node.body if not (isinstance(st, ast.Expr) and isinstance(st.value, ast.Constant))
+                       and not isinstance(st, ast.Pass)]
+
+        class Virt(ast.NodeTransformer):
+            """self.<one-return method of ci>(args) -> its expression"""
+            def visit_Call(self, node):
+                self.generic_visit(node)
+                if isinstance(node.func, ast.Attribute) and isinstance(node.func.value, ast.Name) and node.func.value.id == SELF \
+                        and not node.keywords:
+                    g, body = hook(node.func.attr)
+                    if g is not None and len(body) == 1 and isinstance(body[0], ast.Return) and body[0].value is not None \
+                            and len(g.params) - 1 == len(node.args):
+                        bind = dict(zip(g.params[1:], node.args))
+                        bind[g.params[0]] = ast.Name(id=SELF, ctx=ast.Load())
+                        return ast.copy_location(subst(body[0].value, bind), node)
+                return node
+
+        for n in walk_no_nested(f.node):
+            if isinstance(n, ast.Call) and isinstance(n.func, ast.Attribute) and isinstance(n.func.value, ast.Name) \
+                    and n.func.value.id == SELF and len(n.args) == 1 and not n.keywords and cfg.node_containing(n) is not None \
+                    and isinstance(cfg.node_containing(n).ast, ast.Expr) and cfg.node_containing(n).ast.value is n:
+                g, body = hook(n.func.attr)
+                if g is None or g.name in ('remove', 'append') or len(g.params) != 2:
+                    continue
+                if not body and prog.subclasses(ci.name):
+                    abstract[0] = True              # abstract template method: judged in the concrete classes
+                    continue
+                if len(body) == 1 and isinstance(body[0], ast.Assign) and len(body[0].targets) == 1 \
+                        and isinstance(body[0].targets[0], ast.Attribute) and isinstance(body[0].value, ast.Name) \
+                        and body[0].value.id == g.params[1] and prog.find_setter('Task', body[0].targets[0].attr) is not None:
+                    tgt = subst(body[0].targets[0], {g.params[0]: ast.Name(id=SELF, ctx=ast.Load())})
+                    ast.copy_location(tgt, n)
+                    ast.fix_missing_locations(tgt)
+                    stores.append((cfg.node_containing(n).ast, tgt, n.args[0]))
         # only stores to the property this list class is the view of (its getter builds `<ListClass>(self, self.<field>, ..)`):
         # `task.parent = None` in a remove of another design is not "the rebuilt list"
         stores = [x for x in stores if backing_field(ci, x[1].attr) is not None]
@@ -3180,7 +3322,7 @@ def _remove_each(ctx):
         for node, tgt, val in stores:
             P = tgt.attr
             cn = cfg.node_of(node)
-            v = ast.fix_missing_locations(Dyn().visit(ex.expand(val, cn)))
+            v = ast.fix_missing_locations(Dyn().visit(Virt().visit(ex.expand(val, cn))))
             parts = facts.comp_parts(v) if isinstance(v, (ast.ListComp, ast.GeneratorExp)) else None
             if parts is None and isinstance(v, ast.Call) and isinstance(v.func, ast.Name) and v.func.id in ('list', 'tuple') \
                     and len(v.args) == 1:
